@@ -11,6 +11,7 @@ NOTE = ("Trusts clang 14's parser, Sema and CFG builder, the condition normalisa
         "Value clauses listed as not decided in the evidence are outside the claim.")
 
 CLAIMED = {
+ "C18": ("E-EFFECT", "Who-may-call tables for the memory.high / memory.high.tmp / memory.reclaim / swappiness writers, provenance of the directory fd through every internal call level back to Senpai::run's walk over the configured cgroups, order rules on adjust() (clamp then page mask then write), guard dominance of reclaim (pressure + optional swap validation, usage above the floor) and its size formula, poke-then-reset and modify-then-restore pairing on all exits, polarity agreement of the three threshold comparisons, and the key type of the tracked-state map. Structural clauses for all statistics, parameters and histories; numeric floor/ceiling values and factor curves are not decided.", "4/C18"),
  "C14": ("E-LOCK", "Lockset analysis with thread reachability: the hand-off queue only under queue_mutex_, the inotify descriptors only under event_loop_mutex_ on every non-constructor/destructor path, atomic directory-deleted flag, write-once fields, engine reference confined to the tick thread, an audit of every mutable global/static reachable from both the watcher root and the main loop, acyclic lock order with the expected nesting, exception escape from the watcher's entry function, a frozen table of watcher abort points, dot-file guards and the sorted, locked start-up load. Decides data-race and lock-inversion freedom structurally for all interleavings; convergence, inotify semantics and liveness are not decided.", "4/C14"),
  "C19": ("E-LOCK", "Lockset analysis (RAII guards on mutex members, held sets propagated to callees and into condition-variable predicates) showing that the counter map is only accessed under stats_mutex_ in single critical sections and thread_count_ only under thread_mutex_; lock-order acyclicity; path rules for the handler slot (taken before the thread starts, released with a notification on every exit), connection close on every exit, at most one reply, the request switch table, the bounded read loop, reset's key preservation, startSocket's failure returns and their conversion to an init failure, bounded copies into sun_path, destructor order, and exception escape from the two service thread roots. Holds for all interleavings and request bytes; timing and kernel socket behaviour are not decided.", "4/C19"),
  "C20": ("E-LOCK", "Lockset analysis of the double-buffer state (every AsyncLogState field under state_.lock, with the single audited hand-over of the swapped-out queue), dominance of the backlog cap test over the enqueue with drop counting, a use-after-move rule on the size accounting, reset and drop reporting in the flusher, thread_local storage of the silencing flag and its independence from kmsgLog, and the stop/notify/join order with a final flush. Decides lock discipline and accounting structure for all schedules; exactly-once FIFO delivery and the numeric memory bound are not decided.", "4/C20"),
